@@ -2,6 +2,8 @@
 counterexamples, known-findings handling, evidence file."""
 from __future__ import annotations
 
+from symex.engine import EngineSignal
+
 import collections
 import concurrent.futures as cf
 import hashlib
@@ -262,7 +264,7 @@ def run_property(prop, tier, seed, only=None, workers=None, verbose=False):
         for name, fnx in extra(tier):
             try:
                 extra_results.append(dict(name=name, **fnx()))
-            except Exception as e:
+            except (Exception, EngineSignal) as e:  # Unsupported etc. are BaseExceptions
                 agg["errors"].append(f"extra check {name}: " + "".join(traceback.format_exception(e))[-1500:])
 
     # ---------------------------------------------------------------- verdict
